@@ -130,6 +130,9 @@ def extract_internal_procedure(procedure, name):
     # This provides maximal information on them.
     vars_to_resolve = [proc_var for v in vars_to_resolve if \
         (proc_var := procedure.variable_map.get(v.name))]
+    # Resolve each variable once, however many different references to it (``a(1)``, ``a(i)``, ``a``)
+    # the internal procedure contains.
+    vars_to_resolve = list(dict.fromkeys(vars_to_resolve))
 
     # For each array in `vars_to_resolve`, append any non-literal shape variables to `vars_to_resolve`,
     # if not already there.
